@@ -88,6 +88,14 @@ Theorem C18_as_found_agrees_without_failing_reader : forall ms b drv os,
 Proof. exact as_found_agrees_without_failing_reader. Qed.
 Print Assumptions C18_as_found_agrees_without_failing_reader.
 
+(* the failed future several observers share is not a task (ErrorFuture, batch item given set_error,
+   future given set_error from outside) and holds the error a failed task ended with: its observers
+   see what the observers of that task see, i.e. C18_every_observer_sees_its_own_chain applies *)
+Theorem C18_shared_future_as_task : forall fk ms b drv os, fk <> KLazy ->
+  shared_observations fk (EOfTask ms b) drv os = observations ms b drv os.
+Proof. exact shared_future_as_task. Qed.
+Print Assumptions C18_shared_future_as_task.
+
 (* (c) asynq stack *)
 
 (* for every chain of tasks, whatever frame state (live / kept after a failure / gone) and source
